@@ -994,4 +994,92 @@ example :
     (compositeForward calls).length = 8 := by
   decide
 
+/-! ## several runner invocations in one process
+
+The static `UtestShell::rethrowExceptions_` outlives a `CommandLineTestRunner`. `initializeTestRun` (its statements that
+write the static are regenerated from the source) ASSIGNS the option of the current command line to it, so every
+invocation of a sequence behaves as if it were the only one of the process: all theorems above hold for it with the
+options of ITS OWN command line, whatever the earlier invocations' options were. -/
+
+/-- the regenerated statements leave the option's value in the static, whatever it held before -/
+theorem rethrow_flag_is_the_option :
+    ∀ (opt flag : Bool), execRethrowInits opt Gen.Runner.initializeTestRunRethrowCode flag = opt := by
+  decide
+
+/-- **initializeTestRun_is_the_source**: `initializeTestRun` as regenerated from the source is the unconditional
+    assignment of the hand-written model -/
+theorem initializeTestRun_is_the_source (opt : Bool) (pr : Process) :
+    initializeTestRunGen opt pr = initializeTestRun opt pr := by
+  unfold initializeTestRunGen initializeTestRun
+  rw [rethrow_flag_is_the_option]
+
+/-- the tests of an invocation see the option of its own command line -/
+theorem effectiveCfg_initialized (pr : Process) (i : Invocation) :
+    effectiveCfg (initializeTestRun i.cfg.rethrow pr) i = i.cfg := rfl
+
+theorem runnerInvoke_ok (pr : Process) (i : Invocation) (o : RunOut)
+    (h : runAllTests i.cfg i.plugins i.tests i.repeatCount pr.depth = .ok o) :
+    runnerInvoke pr i = ({ initializeTestRun i.cfg.rethrow pr with depth := o.depth }, .ok o) := by
+  unfold runnerInvoke
+  rw [effectiveCfg_initialized, h]
+
+/-- **invocation_as_if_alone**: in ANY process state (whatever the earlier runners left in the static flag) an
+    invocation yields what `runAllTests` yields for its own command line -/
+theorem invocation_as_if_alone (pr : Process) (i : Invocation) :
+    (runnerInvoke pr i).2 = runAllTests i.cfg i.plugins i.tests i.repeatCount pr.depth := by
+  unfold runnerInvoke
+  rw [effectiveCfg_initialized]
+  cases h : runAllTests i.cfg i.plugins i.tests i.repeatCount pr.depth <;> rfl
+
+/-- **with_e_after_any_history**: a runner started with `-e` in a process in which earlier runners ran with whatever
+    options (any value of the static flag) returns, and its observable result is the declarative one: lifecycle,
+    records, summaries, return value (all consequences of `RunOutcome` above apply) -/
+theorem with_e_after_any_history (pr : Process) (hd : pr.depth = 0) (i : Invocation) (he : i.cfg.rethrow = false) :
+    ∃ o, (runnerInvoke pr i).2 = .ok o ∧ RunOutcome i.cfg i.plugins i.tests i.repeatCount 0 o := by
+  rw [invocation_as_if_alone, hd]
+  exact run_outcome_top i.cfg i.plugins i.tests i.repeatCount he
+
+/-- **sequence_every_invocation_alone**: a sequence of invocations in one process (each quiet: `-e`, or no std / foreign
+    exception leaves a test) is the list of the single runs -/
+theorem sequence_every_invocation_alone :
+    ∀ (invs : List Invocation) (pr : Process), pr.depth = 0 → (∀ i ∈ invs, ∀ t ∈ i.tests, QuietTest i.cfg t) →
+      runSequence pr invs = invs.map (fun i => runAllTests i.cfg i.plugins i.tests i.repeatCount 0)
+  | [], _, _, _ => rfl
+  | i :: rest, pr, hd, hq => by
+    obtain ⟨o, ho, oo⟩ := rethrow_quiet_same i.cfg i.plugins i.tests i.repeatCount (hq i (List.mem_cons_self ..))
+    have hinv := runnerInvoke_ok pr i o (by rw [hd]; exact ho)
+    have hrest := sequence_every_invocation_alone rest { initializeTestRun i.cfg.rethrow pr with depth := o.depth } oo.depth
+      (fun j hj => hq j (List.mem_cons_of_mem _ hj))
+    simp only [runSequence, hinv, List.map_cons, hrest, ho]
+
+/-- **sequence_invocation_outcome**: every invocation of such a sequence returns, with the declarative outcome of ITS
+    OWN command line — whatever the options of the invocations before it were -/
+theorem sequence_invocation_outcome (invs : List Invocation) (pr : Process) (hd : pr.depth = 0)
+    (hq : ∀ i ∈ invs, ∀ t ∈ i.tests, QuietTest i.cfg t) (k : Nat) (hk : k < invs.length) :
+    ∃ o, (runSequence pr invs)[k]? = some (.ok o) ∧
+      RunOutcome invs[k].cfg invs[k].plugins invs[k].tests invs[k].repeatCount 0 o := by
+  obtain ⟨o, ho, oo⟩ := rethrow_quiet_same invs[k].cfg invs[k].plugins invs[k].tests invs[k].repeatCount
+    (hq invs[k] (List.getElem_mem hk))
+  refine ⟨o, ?_, oo⟩
+  rw [sequence_every_invocation_alone invs pr hd hq, List.getElem?_map, List.getElem?_eq_getElem hk, Option.map_some, ho]
+
+/-- a passing test: the runner without `-e` that precedes the one with `-e` -/
+def exQuietTest : Test :=
+  { group := "w", name := "warmup", file := "f.cpp", line := 3, ignored := false, setup := [], body := [.checkPass], teardown := [] }
+
+/-- runner 1 WITHOUT `-e` (switches the static on), runner 2 WITH `-e` and a test whose teardown lets a std exception
+    out: runner 2 records check, exception and plugin error once each, runs mark 4, returns 3, depth 0 -/
+example :
+    (runSequence {} [⟨{ exCfg true with rethrow := true }, [], [exQuietTest], 1⟩, ⟨exCfg true, [exPlugin], [exTest], 1⟩]).map
+      (fun r => r.toOption.map (fun o => (marksIn o.evs, (failuresOf o.evs).map (·.line), o.depth, o.ret)))
+    = [some ([], [], 0, 0), some ([(.setup, 1), (.teardown, 4)], [12, 10, 7], 0, 3)] ∧
+    (runnerInvoke {} ⟨{ exCfg true with rethrow := true }, [], [exQuietTest], 1⟩).1.rethrowExceptions = true := by
+  decide
+
+/-- the hypothesis on the regenerated code is needed: `if (option) setRethrowExceptions(true);` leaves the static on -/
+example :
+    execRethrowInits false [⟨.ifOption, .lit true⟩] true = true ∧
+    execRethrowInits false Gen.Runner.initializeTestRunRethrowCode true = false := by
+  decide
+
 end Runner
